@@ -305,11 +305,13 @@ def proto_data_received(u: U):
     p = u.obj("ResponseHandler",
               {"_payload_parser": _PP() if has_pp else None, "_data_received_cb": None, "_upgraded": upgraded,
                "_parser": _Parser() if has_parser else None, "_tail": tail0, "transport": _T(), "_should_close": False,
-               "_payload": None, "_skip_payload": u.choose(2, "skip_payload") == 1 if has_parser and not parse_fails else False},
+               "_payload": None, "_skip_payload": u.choose(2, "skip_payload") == 1 if has_parser and not parse_fails else False,
+               "_read_timeout_handle": "ARMED-TIMER" if u.choose(2, "read_timer_armed") else None,
+               "_read_timeout": u.real("read_timeout")},
               {"_reschedule_timeout": lambda self: rearmed.append(True), "_drop_timeout": lambda self: None,
                "feed_data": lambda self, item: log.append(("queue", item)),
                "set_exception": lambda self, exc, cause=None: log.append(("set_exception", type(exc).__name__))},
-              shared=False)
+              shared=False, real=(PROTO, "ResponseHandler"), init=(PROTO, "ResponseHandler.__init__", ("LOOP",), {}))
     f = u.load(PROTO, "ResponseHandler.data_received",
                globals={"EMPTY_PAYLOAD": "EMPTY", "EMPTY_BODY_STATUS_CODES": frozenset({204, 304})})
     u.loop("client_proto:ResponseHandler.data_received", 0, unroll=True, bound=3)
